@@ -19,6 +19,7 @@ package models
 //@   props C08
 //@   arith bv
 //@   loop 1 invariant folded: hash == fnv_fold_u64(old(uint64(*s)), row(data), off(data), rangeindex+1)
+//@   loop 1 invariant unfold_hint: rangeindex + 1 < len(data) ==> fnv_fold_u64(old(uint64(*s)), row(data), off(data), rangeindex+2) == (fnv_fold_u64(old(uint64(*s)), row(data), off(data), rangeindex+1) ^ uint64(data[rangeindex+1])) * 1099511628211
 //@   ensures fnv: uint64(*s) == fnv_fold_u64(old(uint64(*s)), row(data), off(data), len(data))
 //@   ensures all_consumed: result0 == len(data) && result1 == nil
 //@   modifies *s
